@@ -51,6 +51,29 @@ TRUSTED = [
 QUERIES = [("counter", b"a.b"), ("gauge", b"a.b.c"), ("observer", b"b"), ("counter", b"a.z"), ("counter", b"z.z.z"), ("gauge", b"*.a")]
 
 
+YAML_TEXT = {}          # id(cfg) -> the YAML text to load it from (same configuration, other comments)
+
+
+def lop(cfg):
+    return GM.load_op_yaml(cfg, YAML_TEXT[id(cfg)]) if id(cfg) in YAML_TEXT else GM.load_op(cfg)
+
+
+def digest_twin_reloads():
+    """reload histories A, B, A in which the two files carry the same 32-bit digest (CRC-32, FNV-1 / FNV-1a 32; Adler-32 when a
+    pair is found): a reload that recognises "the same file" by such a sum would skip B"""
+    out = []
+    a = (None, [GM.rule(b"svc.*", b"first_$1", help=b"r0"), GM.rule(b"old.*", b"old", help=b"r1")])
+    b = (GM.defaults(ttl=45 * 10**9), [GM.rule(b"svc.*", b"second", help=b"r0", labels=[(b"who", b"$1")]), GM.rule(b"(.*)\\.z", b"re_$1", help=b"r1", match_type=b"regex")])
+    for kind in ("crc32", "fnv32", "fnv32a", "adler32"):
+        tw = GM.digest_twin_yaml(a, b, kind)
+        if not tw:
+            continue
+        a1, b1, a2 = (a[0], a[1]), (b[0], b[1]), (a[0], a[1])           # fresh tuples: the text is attached by identity
+        YAML_TEXT[id(a1)], YAML_TEXT[id(b1)], YAML_TEXT[id(a2)] = tw[0], tw[1], tw[0]
+        out.append(([(a1, "ok"), (b1, "ok"), (a2, "ok")], [b"svc.x", b"old.y", b"q.z", b"svc.z"]))
+    return out
+
+
 def resplit_pairs():
     """pairs of glob-only configurations (unordered mode and ordered mode) whose match strings concatenate to the same bytes with the
     rule boundary at another place - a reload that "recognises" the rule set by such a fingerprint keeps stale analysis results"""
@@ -67,7 +90,7 @@ def resplit_pairs():
     return out
 
 
-def run(rep, tier, seed, replay):
+def _run(rep, tier, seed, replay):
     if replay and E2E.replay_case(rep, "C14", replay):
         rep.cov.setdefault("trusted_base", ["end-to-end replay of one case against the built binary"])
         rep.cov.setdefault("rule", "replay of one end-to-end case")
@@ -81,7 +104,7 @@ def run(rep, tier, seed, replay):
         seqs = [rp["seq"]]
     cases, meta = [], []
     classes = {}
-    directed = [] if replay else resplit_pairs()
+    directed = [] if replay else resplit_pairs() + digest_twin_reloads()
     for it in range(0 if replay else nseq + len(directed)):
         if it < len(directed):
             steps, probes = directed[it]
@@ -90,12 +113,12 @@ def run(rep, tier, seed, replay):
             for cache in (("none", 0), ("lru", 1000)):
                 ops = []
                 for cfg, e in steps:
-                    ops.append(GM.load_op(cfg))
+                    ops.append(lop(cfg))
                     ops += qops
                 cases.append(GM.case_line(cache[0], cache[1], ops))
                 meta.append((steps, qs, cache))
             for cfg, e in steps:
-                cases.append(GM.case_line("none", 0, [GM.load_op(cfg)] + qops))
+                cases.append(GM.case_line("none", 0, [lop(cfg)] + qops))
                 meta.append(("fresh", cfg, qs))
             continue
         steps = []
@@ -117,14 +140,14 @@ def run(rep, tier, seed, replay):
         for cache in (("none", 0), ("lru", 3 if len(cases) % 4 else 1000)):      # a large cache keeps entries across the reload
             ops = []
             for cfg, e in steps:
-                ops.append(GM.load_op(cfg))
+                ops.append(lop(cfg))
                 ops += qops
             cases.append(GM.case_line(cache[0], cache[1], ops))
             meta.append((steps, qs, cache))
         # the fresh-mapper reference for every valid step
         for cfg, e in steps:
             if e == "ok":
-                cases.append(GM.case_line("none", 0, [GM.load_op(cfg)] + qops))
+                cases.append(GM.case_line("none", 0, [lop(cfg)] + qops))
                 meta.append(("fresh", cfg, qs))
     impl, model = ME.run_cases("C14", cases)
     rep.cov["traces_validated_against_impl"] = len(cases)
@@ -189,3 +212,9 @@ def run(rep, tier, seed, replay):
         rep.cov["rule"] += ("; plus %d end-to-end histories of 3-5 reloads of the built binary (valid ones changing defaults and rules, invalid ones), by /-/reload or SIGHUP, "
                             "lines and a scrape after each, compared with the model" % rep.extra.get("e2e_reload_cases", 0))
     rep.sample(dict(case=cases[0][:600], impl=impl[0][:8]))
+
+
+def run(rep, tier, seed, replay):
+    _run(rep, tier, seed, replay)
+    if not replay:
+        genproof.digest_obligation(rep, "a configuration is recognised by a digest of its text")
